@@ -71,3 +71,15 @@ Example C10_example_hyps :
   find_lower [qz 5] [qz 0; qz 5; qz 7] false = Ok [-1; 0; 0] /\
   find_higher [qz 5] [qz 0; qz 5; qz 7] false = Ok [0; 0; 1].
 Proof. vm_compute. repeat split; first [reflexivity | exact I | discriminate]. Qed.
+
+(** ---- function bodies REGENERATED from the source as glue terms (Gen/UtilsGlue.v), run by the interpreter of Model/GlueFun.v with
+     the leaves of Model/GlueLeaves.v (callees mean their models), are the hand-written models ---- *)
+From TW Require Import Model.GlueLeaves Gen.UtilsGlue Proofs.GlueUtilsProofs.
+Open Scope string_scope.
+Theorem C10_glue_find_dispatch : forall x lk s fill,
+  outcome_idx (call_fun utils_callf array_methf no_apply no_pow utils_functions "find_closest_element_indices_to_values"
+     [("x", VArr x); ("lookup", VArr lk); ("strategy", VStrV (strategy_name s)); ("fill_not_valid", VBoolV fill)])
+  = find_indices x lk s fill.
+Proof. exact glue_find_dispatch. Qed.
+Print Assumptions C10_glue_find_dispatch.
+Close Scope string_scope.
